@@ -107,10 +107,16 @@ CHECKS = {
          "compared event by event with real OS threads under the token-passing scheduler through the cfg(callbag_verif) hooks. Invariant "
          "proofs over ALL schedules, any n, queues and endings (at most one failing member), for combine! and merge!: greeted once, data "
          "exactly once in member order / complete tuples of sent values, one terminal after every data delivery returned, no panic; the "
-         "pinned tree's combine is refuted by a machine-checked schedule.",
+         "pinned tree's combine is refuted by a machine-checked schedule. merge! also at the granularity of EVERY access, the talkback "
+         "cells included (ThreadsFine.v, compared with the crate on free-schedule runs): additionally no delivery begins after the "
+         "terminal message, every member told to stop at most once and - at rest after the end - exactly once; merge.rs before fix "
+         "13d4e7e is refuted.",
          "Coq invariant proofs over an interleaving model + scheduler-controlled differential test against real threads"),
  "C19": ("proof", "As C18 for take(n): the repaired code (fetch_update) never over-delivers under any schedule; the unrepaired code is refuted "
-         "by a machine-checked schedule that is also replayed on the crate.",
+         "by a machine-checked schedule that is also replayed on the crate. take behind merge! (ThreadsTakeMerge.v, the composition, "
+         "compared with the crate step by step): for every schedule and ANY number of failing members at most n data, the sink ended at "
+         "most once and - once n data were delivered - exactly once, every member told to stop exactly once or ended by itself; take.rs "
+         "before fix 7f77d2f is refuted.",
          "Coq interleaving model + scheduler-controlled differential test"),
  "C20": ("translation_validation", "Coq: a model of the call!/trace!/instrument! macros of src/utils/mod.rs (Tracing.v) - if the macro arguments "
          "after the format string are pure, the three builds (feature off; on without subscriber; on with a TRACE subscriber) perform the "
@@ -157,7 +163,7 @@ def main():
         }],
         "checks": checks,
         "not_applicable": na,
-        "notes": "Known findings: /verif/known_findings.json. fix: commits in /repo: ef0bdaa, a78b8de, 56aafc9, a25d8e2, eae2b4b, 13d4e7e (see DESIGN.md section 6).",
+        "notes": "Known findings: /verif/known_findings.json. fix: commits in /repo: ef0bdaa, a78b8de, 56aafc9, a25d8e2, eae2b4b, 13d4e7e, 7f77d2f (see DESIGN.md section 6).",
     }
     json.dump(man, open("/verif/MANIFEST.json", "w"), indent=1)
     print("wrote MANIFEST.json with", len(checks), "checks")
